@@ -397,6 +397,7 @@ func (stub *stub) Start(ctx context.Context) (retErr error) {
 	}
 
 	doneC := stub.doneC
+	cfgTimeout := stub.registrationTimeout
 	clientOpts := []ttrpc.ClientOpts{
 		ttrpc.WithOnClose(func() {
 			stub.connClosed(doneC)
@@ -431,7 +432,12 @@ func (stub *stub) Start(ctx context.Context) (retErr error) {
 	}
 	verifHook("start.beforeCfgWait")
 
-	if err = <-stub.cfgErrC; err != nil {
+	select {
+	case err = <-stub.cfgErrC:
+	case <-time.After(cfgTimeout):
+		err = fmt.Errorf("timed out waiting for configuration by NRI/Runtime")
+	}
+	if err != nil {
 		return err
 	}
 
